@@ -236,3 +236,161 @@ Example c17_filler_nonvacuous :
   lookup (file_table ([Classic [(0, [CE 0 65535 false; CE 15 0 true])]] ++ [fsection (s "%%EOF") ex_fill])) 1 = LOffset 15 /\
   filler_code {| fc_base := s "%%EOF"; fc_fill := ex_fill; fc_out := filler_out (s "%%EOF") ex_fill |} = 0.
 Proof. exact ex_filler_hyps. Qed.
+
+(** * C17 x C09: the bytes at the recorded offset parse back (theories/C17/ParseBack.v).
+    The serialised bodies are inputs of [finish] / [filler_out]; when a body is C09's [ser_incr v]
+    (the incremental writer's object serialiser, C09/Model.v) of a value with [wf_incr v]
+    (C09/IncrFull.v), C09's reader — lexer [lex_all] + parser [parse_tok], unchanged — run on what
+    follows the "N G obj\n" header returns [norm v] and leaves the keyword [endobj] as next token. *)
+From OxVerif Require Import C09.Model C09.Proofs C09.Full C09.IncrFull.
+From OxVerif Require Import C04.Model C17.Model C17.Proofs C17.Filler C17.ParseBack.
+
+(** [read_value] is C09's [parse] that also hands back the unread tokens *)
+Theorem c17_parse_is_read_value : forall bs, parse bs = option_map fst (read_value bs).
+Proof. exact parse_is_read_value. Qed.
+Check c17_parse_is_read_value : forall bs, parse bs = option_map fst (read_value bs).
+Print Assumptions c17_parse_is_read_value.
+
+(** C09 alone: a [ser_incr] value followed by LF "endobj" LF and anything *)
+Theorem c17_value_then_endobj_reads : forall v rest, wf_incr v = true ->
+  exists ts', read_value (ser_incr v ++ endobj_tail rest) = Some (norm v, TKw w_endobj :: ts').
+Proof. exact incr_read_value_endobj. Qed.
+Check c17_value_then_endobj_reads : forall v rest, wf_incr v = true ->
+  exists ts', read_value (ser_incr v ++ endobj_tail rest) = Some (norm v, TKw w_endobj :: ts').
+Print Assumptions c17_value_then_endobj_reads.
+
+(** [finish]: every written object has a line whose offset is the exact byte of its "N G obj"
+    (the analogue of [c17_filler_xref_covers]); with distinct numbers C04's reader resolves to it *)
+Theorem c17_update_xref_covers : forall base u pre o post,
+  sort (u_objs u) = pre ++ o :: post ->
+  let off := len (start_of base) + len (body_bytes pre) in
+  In (fst (fst o), CE off (snd (fst o)) true) (flatten (group (entries_of (changed base u))))
+  /\ exists t, skipn (N.to_nat off) (finish base u) = obj_bytes o ++ t.
+Proof. exact update_xref_covers_lemma. Qed.
+Check c17_update_xref_covers : forall base u pre o post,
+  sort (u_objs u) = pre ++ o :: post ->
+  let off := len (start_of base) + len (body_bytes pre) in
+  In (fst (fst o), CE off (snd (fst o)) true) (flatten (group (entries_of (changed base u))))
+  /\ exists t, skipn (N.to_nat off) (finish base u) = obj_bytes o ++ t.
+Print Assumptions c17_update_xref_covers.
+
+Theorem c17_update_rewritten_reads_exact : forall secs base u pre o post,
+  NoDup (map (fun o : robj => fst (fst o)) (u_objs u)) -> sort (u_objs u) = pre ++ o :: post ->
+  lookup (file_table (secs ++ [section_of base u])) (fst (fst o)) =
+  LOffset (len (start_of base) + len (body_bytes pre)).
+Proof. exact update_rewritten_reads_exact_lemma. Qed.
+Check c17_update_rewritten_reads_exact : forall secs base u pre o post,
+  NoDup (map (fun o : robj => fst (fst o)) (u_objs u)) -> sort (u_objs u) = pre ++ o :: post ->
+  lookup (file_table (secs ++ [section_of base u])) (fst (fst o)) =
+  LOffset (len (start_of base) + len (body_bytes pre)).
+Print Assumptions c17_update_rewritten_reads_exact.
+
+(** the composition, one object located by its position in the written (sorted) order *)
+Theorem c17_rewritten_object_parses_back_at : forall base u pre o post v,
+  sort (u_objs u) = pre ++ o :: post -> snd o = ser_incr v -> wf_incr v = true ->
+  let off := len (start_of base) + len (body_bytes pre) in
+  In (fst (fst o), CE off (snd (fst o)) true) (flatten (group (entries_of (changed base u))))
+  /\ exists t ts',
+       skipn (N.to_nat off) (finish base u) = header_of o ++ ser_incr v ++ endobj_tail t
+       /\ read_value (ser_incr v ++ endobj_tail t) = Some (norm v, TKw w_endobj :: ts')
+       /\ parse (ser_incr v ++ endobj_tail t) = Some (norm v).
+Proof. exact rewritten_object_parses_back_at. Qed.
+Check c17_rewritten_object_parses_back_at : forall base u pre o post v,
+  sort (u_objs u) = pre ++ o :: post -> snd o = ser_incr v -> wf_incr v = true ->
+  let off := len (start_of base) + len (body_bytes pre) in
+  In (fst (fst o), CE off (snd (fst o)) true) (flatten (group (entries_of (changed base u))))
+  /\ exists t ts',
+       skipn (N.to_nat off) (finish base u) = header_of o ++ ser_incr v ++ endobj_tail t
+       /\ read_value (ser_incr v ++ endobj_tail t) = Some (norm v, TKw w_endobj :: ts')
+       /\ parse (ser_incr v ++ endobj_tail t) = Some (norm v).
+Print Assumptions c17_rewritten_object_parses_back_at.
+
+(** for every base and every update whose replacement bodies are [ser_incr] of [wf_incr] values:
+    every replacement object has a line in the appended section; from the offset of that line on,
+    the output is "N G obj\n" ++ ser_incr v ++ "\nendobj\n" ++ t; C09's reader on what follows the
+    header returns [norm v] and the next token is the keyword [endobj] *)
+Theorem c17_rewritten_object_parses_back : forall base u vals,
+  map (fun o : robj => snd o) (u_objs u) = map ser_incr vals -> forallb wf_incr vals = true ->
+  forall o, In o (u_objs u) ->
+  exists off v t ts',
+    In (fst (fst o), CE off (snd (fst o)) true) (flatten (group (entries_of (changed base u))))
+    /\ len base <= off
+    /\ In v vals /\ snd o = ser_incr v
+    /\ skipn (N.to_nat off) (finish base u) = header_of o ++ ser_incr v ++ endobj_tail t
+    /\ read_value (ser_incr v ++ endobj_tail t) = Some (norm v, TKw w_endobj :: ts')
+    /\ parse (ser_incr v ++ endobj_tail t) = Some (norm v).
+Proof. exact rewritten_object_parses_back_lemma. Qed.
+Check c17_rewritten_object_parses_back : forall base u vals,
+  map (fun o : robj => snd o) (u_objs u) = map ser_incr vals -> forallb wf_incr vals = true ->
+  forall o, In o (u_objs u) ->
+  exists off v t ts',
+    In (fst (fst o), CE off (snd (fst o)) true) (flatten (group (entries_of (changed base u))))
+    /\ len base <= off
+    /\ In v vals /\ snd o = ser_incr v
+    /\ skipn (N.to_nat off) (finish base u) = header_of o ++ ser_incr v ++ endobj_tail t
+    /\ read_value (ser_incr v ++ endobj_tail t) = Some (norm v, TKw w_endobj :: ts')
+    /\ parse (ser_incr v ++ endobj_tail t) = Some (norm v).
+Print Assumptions c17_rewritten_object_parses_back.
+
+(** with distinct object numbers: the offset C04's reader resolves the object to IS that byte *)
+Theorem c17_rewritten_object_resolves_and_parses_back : forall secs base u vals,
+  NoDup (map (fun o : robj => fst (fst o)) (u_objs u)) ->
+  map (fun o : robj => snd o) (u_objs u) = map ser_incr vals -> forallb wf_incr vals = true ->
+  forall o, In o (u_objs u) ->
+  exists off v t ts',
+    lookup (file_table (secs ++ [section_of base u])) (fst (fst o)) = LOffset off
+    /\ In v vals /\ snd o = ser_incr v
+    /\ skipn (N.to_nat off) (finish base u) = header_of o ++ ser_incr v ++ endobj_tail t
+    /\ read_value (ser_incr v ++ endobj_tail t) = Some (norm v, TKw w_endobj :: ts').
+Proof. exact rewritten_object_resolves_and_parses_back_lemma. Qed.
+Check c17_rewritten_object_resolves_and_parses_back : forall secs base u vals,
+  NoDup (map (fun o : robj => fst (fst o)) (u_objs u)) ->
+  map (fun o : robj => snd o) (u_objs u) = map ser_incr vals -> forallb wf_incr vals = true ->
+  forall o, In o (u_objs u) ->
+  exists off v t ts',
+    lookup (file_table (secs ++ [section_of base u])) (fst (fst o)) = LOffset off
+    /\ In v vals /\ snd o = ser_incr v
+    /\ skipn (N.to_nat off) (finish base u) = header_of o ++ ser_incr v ++ endobj_tail t
+    /\ read_value (ser_incr v ++ endobj_tail t) = Some (norm v, TKw w_endobj :: ts').
+Print Assumptions c17_rewritten_object_resolves_and_parses_back.
+
+(** the form filler's own tail, from [c17_filler_xref_covers] *)
+Theorem c17_filler_object_parses_back : forall base f pre o post v,
+  ff_objs f = pre ++ o :: post -> snd o = ser_incr v -> wf_incr v = true ->
+  let off := len base + len (body_bytes pre) in
+  In (fst (fst o), CE off (snd (fst o)) true) (flatten (group (entries_of (fxref base f))))
+  /\ exists t ts',
+       skipn (N.to_nat off) (filler_out base f) = header_of o ++ ser_incr v ++ endobj_tail t
+       /\ read_value (ser_incr v ++ endobj_tail t) = Some (norm v, TKw w_endobj :: ts')
+       /\ parse (ser_incr v ++ endobj_tail t) = Some (norm v).
+Proof. exact filler_object_parses_back_lemma. Qed.
+Check c17_filler_object_parses_back : forall base f pre o post v,
+  ff_objs f = pre ++ o :: post -> snd o = ser_incr v -> wf_incr v = true ->
+  let off := len base + len (body_bytes pre) in
+  In (fst (fst o), CE off (snd (fst o)) true) (flatten (group (entries_of (fxref base f))))
+  /\ exists t ts',
+       skipn (N.to_nat off) (filler_out base f) = header_of o ++ ser_incr v ++ endobj_tail t
+       /\ read_value (ser_incr v ++ endobj_tail t) = Some (norm v, TKw w_endobj :: ts')
+       /\ parse (ser_incr v ++ endobj_tail t) = Some (norm v).
+Print Assumptions c17_filler_object_parses_back.
+
+(** non-vacuity: base without final EOL, two replacements registered in descending order, one body a
+    nested dictionary with a non-ASCII name, a string with parentheses and a backslash, a reference
+    and nested dictionaries (C09's [incr_sample]); hypotheses hold and the conclusion computes *)
+Example c17_parses_back_hyps :
+  map (fun o : robj => snd o) (u_objs pb_upd) = map ser_incr pb_vals
+  /\ forallb wf_incr pb_vals = true
+  /\ sort (u_objs pb_upd) = [] ++ (3, 0, ser_incr incr_sample) :: [(7, 0, ser_incr (nth 0 pb_vals ONull))]
+  /\ ends_eol pb_base = false.
+Proof. exact pb_hyps. Qed.
+Example c17_parses_back_nodup : NoDup (map (fun o : robj => fst (fst o)) (u_objs pb_upd)).
+Proof. exact pb_nodup. Qed.
+Example c17_parses_back_concl :
+  let out := finish pb_base pb_upd in
+  In (3, CE 19 0 true) (flatten (group (entries_of (changed pb_base pb_upd))))
+  /\ lookup (file_table ([Classic [(0, [CE 0 65535 false; CE 15 0 true; CE 30 0 true; CE 40 0 true])]] ++ [section_of pb_base pb_upd])) 3 = LOffset 19
+  /\ is_prefixb (s "3 0 obj" ++ nl ++ ser_incr incr_sample ++ nl ++ s "endobj" ++ nl ++ s "7 0 obj" ++ nl) (skipn 19 out) = true
+  /\ option_map (fun r => (fst r, hd TEof (snd r))) (read_value (skipn (19 + 8) out)) = Some (norm incr_sample, TKw w_endobj)
+  /\ parse (ser_incr incr_sample ++ endobj_tail (skipn (19 + 8 + length (ser_incr incr_sample) + 8) out)) = Some (norm incr_sample)
+  /\ ascii_names incr_sample = false.
+Proof. exact pb_concl. Qed.
